@@ -7,8 +7,10 @@
        key in the map  -> subscribe to the sender stored there: CoalesceFuture::Waiting{receiver}
        key not in map  -> insert a fresh broadcast sender under key, evaluate inner.call(req)
                           (the inner call starts NOW), CoalesceFuture::Leading{future, key: Some}.
-                          If inner.call(req) panics, no future exists yet; the LeaderRegistration
-                          guard alive around that call runs InFlight::cancel(key) while unwinding.
+                          From the insertion to the construction of that future a
+                          LeaderRegistration guard is alive: if anything in between panics (the
+                          role counter / debug event of features metrics / tracing, inner.call(req))
+                          no future exists yet and the guard runs InFlight::cancel(key) while unwinding.
    * poll, Leading: polls the inner future; on Ready(res): clone res (for the waiters), THEN
        key.take() and InFlight::complete(key, clone) = remove the map entry of that key and send on
        the sender found there (then that sender is dropped); returns res.  A panic of the inner
@@ -53,7 +55,9 @@ Inductive ev :=
 | Drop (i : nat)
 | Complete (i : nat) (o : outcome)
 | CallPanic (i : nat) (k : nat)   (* call() whose inner.call(), if it is reached, panics *)
-| Arm (i : nat).                  (* the next Clone of a value produced by caller i's inner call panics *)
+| Arm (i : nat)                   (* the next Clone of a value produced by caller i's inner call panics *)
+| CallPanicRec (i : nat) (k : nat) (* call() in which the metrics recorder (or tracing subscriber) panics *)
+| Advance (d : Z).                (* d milliseconds pass *)
 
 Record st := mkSt {
   cs : nat -> cst;
@@ -139,6 +143,28 @@ Definition call_panic (s : st) (i k : nat) : st * obs :=
   | Idle =>
     match lookup k (reqs s) with
     | Some _ => (call s i k, no_obs)
+    | None =>
+      (mkSt (upd (cs s) i Done) (remove_key k ((k, i) :: reqs s)) (upd (chan s) i Closed)
+            (inflight s) (gate s) (woken s) (polled s) (upd (ckey s) i (Some k)) (bomb s) (busy s),
+       {| r := 5; val := -1 |})
+    end
+  | _ => (s, no_obs)
+  end.
+
+(* call() in which the role counter / debug event panics (features `metrics`, `tracing`: code of the
+   installed recorder / subscriber).  It runs right after try_join in both branches.  Waiter branch:
+   the freshly subscribed receiver is dropped by the unwinding; nothing else existed.  Leader
+   branch: try_join has inserted (k, i) and the LeaderRegistration guard is already armed (it is
+   the first statement of the branch): cancel(k), exactly as for a panicking inner.call() - which
+   is not reached: no inner call is made. *)
+Definition call_panic_rec (s : st) (i k : nat) : st * obs :=
+  match cs s i with
+  | Idle =>
+    match lookup k (reqs s) with
+    | Some _ =>
+      (mkSt (upd (cs s) i Done) (reqs s) (chan s) (inflight s) (gate s) (woken s) (polled s)
+            (upd (ckey s) i (Some k)) (bomb s) (busy s),
+       {| r := 5; val := -1 |})
     | None =>
       (mkSt (upd (cs s) i Done) (remove_key k ((k, i) :: reqs s)) (upd (chan s) i Closed)
             (inflight s) (gate s) (woken s) (polled s) (upd (ckey s) i (Some k)) (bomb s) (busy s),
@@ -239,6 +265,8 @@ Definition step (s : st) (e : ev) : st * obs :=
   | Complete i o => (complete s i o, no_obs)
   | CallPanic i k => call_panic s i k
   | Arm i => (arm s i, no_obs)
+  | CallPanicRec i k => call_panic_rec s i k
+  | Advance _ => (s, no_obs)     (* the crate has no timer: time changes nothing *)
   end.
 
 Definition step_st (s : st) (e : ev) : st := fst (step s e).
@@ -250,7 +278,8 @@ Definition run (evs : list ev) : st := run_b true evs.
                               driver builds and shares the service value (no effect here);
                               events on other callers are skipped
      op 1 = Poll a, 2 = Drop a, 4 = Complete a b (b: 0 ok 1 err 2 panic), 5 = Call a with key b,
-     op 6 = Arm a, 7 = CallPanic a with key b
+     op 6 = Arm a, 7 = CallPanic a with key b, 8 = CallPanicRec a with key b,
+     op 3 = Advance b (milliseconds; a is ignored but must name a caller like everywhere else)
    trace = per event [r; val; wake mask; mask of callers whose inner call is in flight;
                       mask of armed Clone panics] *)
 Definition outcome_of (z : Z) : outcome :=
@@ -265,7 +294,9 @@ Definition ev_of (n : nat) (t : Z * Z * Z) : option ev :=
   if op =? 4 then Some (Complete i (outcome_of b)) else
   if op =? 5 then Some (Call i (Z.to_nat b)) else
   if op =? 6 then Some (Arm i) else
-  if op =? 7 then Some (CallPanic i (Z.to_nat b)) else None.
+  if op =? 7 then Some (CallPanic i (Z.to_nat b)) else
+  if op =? 8 then Some (CallPanicRec i (Z.to_nat b)) else
+  if op =? 3 then Some (Advance b) else None.
 
 Fixpoint evs_of (n : nat) (l : list (Z * Z * Z)) : list ev :=
   match l with
